@@ -42,6 +42,10 @@ def must_statements(body):
             if always_raises(b.body) and b.orelse and not always_raises(b.orelse):
                 out.extend(must_statements(b.orelse))
                 continue
+        if isinstance(b, ast.Try) and b.handlers and all(always_raises(h.body) for h in b.handlers) and not b.finalbody:
+            out.extend(must_statements(b.body))
+            out.extend(must_statements(b.orelse))
+            continue
         out.append(b)
     return out
 
@@ -393,13 +397,33 @@ class Walker:
             return (kind, elts)
         if isinstance(node, ast.Dict):
             # a dict literal is a fresh mutable object: its creation site is part of its identity
-            return ('dict', tuple((self.sym(k, st) if k is not None else ('opaque', '**'), self.sym(v, st))
-                                  for k, v in zip(node.keys, node.values)), ('at', getattr(node, 'lineno', 0), getattr(node, 'col_offset', 0)))
+            items = []
+            for k, v in zip(node.keys, node.values):
+                if k is None:
+                    inner = self.sym(v, st)
+                    if inner[0] == 'dict' and all(kk != ('opaque', '**') for kk, _ in inner[1]):
+                        for kk, vv in inner[1]:                # {**other}: spliced in place, later keys override earlier ones
+                            items = [(a, b) for a, b in items if a != kk] + [(kk, vv)] if any(a == kk for a, _ in items) else items + [(kk, vv)]
+                        continue
+                    items.append((('opaque', '**'), inner))
+                    continue
+                kk, vv = self.sym(k, st), self.sym(v, st)
+                if any(a == kk for a, _ in items):
+                    items = [(a, (vv if a == kk else b)) for a, b in items]
+                else:
+                    items.append((kk, vv))
+            return ('dict', tuple(items), ('at', getattr(node, 'lineno', 0), getattr(node, 'col_offset', 0)))
         if isinstance(node, ast.Subscript):
             base = self.sym(node.value, st)
             if isinstance(node.slice, ast.Slice):
                 sl = node.slice
-                return ('slice', base, self.sym(sl.lower, st), self.sym(sl.upper, st), self.sym(sl.step, st))
+                lo, hi, step = self.sym(sl.lower, st), self.sym(sl.upper, st), self.sym(sl.step, st)
+                if is_const(base) and isinstance(base[1], (str, bytes, tuple)) and all(is_const(x) and (x[1] is None or isinstance(x[1], int)) for x in (lo, hi, step)):
+                    return C(base[1][slice(lo[1], hi[1], step[1])])
+                if base[0] in ('list', 'tuple') and all(is_const(x) and (x[1] is None or isinstance(x[1], int)) for x in (lo, hi, step)) \
+                        and not any(e[0] == 'star' for e in base[1]):
+                    return (base[0], tuple(base[1][slice(lo[1], hi[1], step[1])]))
+                return ('slice', base, lo, hi, step)
             idx = self.sym(node.slice, st)
             if not is_const(idx):
                 f_ = st.facts.get(idx)
@@ -427,6 +451,28 @@ class Walker:
             return ('sub', base, idx)
         if isinstance(node, ast.DictComp) and len(node.generators) == 1:
             g = node.generators[0]
+            lit = self.sym(g.iter, st)
+            if lit[0] in ('list', 'tuple') and len(lit[1]) <= 32 and not any(e[0] == 'star' for e in lit[1]):
+                # a comprehension over a literal sequence is the dict it spells out
+                items = []
+                ok = True
+                for e in lit[1]:
+                    s2 = st.clone()
+                    try:
+                        self.assign(g.target, e, s2, node)
+                    except AnalysisError:
+                        ok = False
+                        break
+                    conds = [self.decide(self.sym(c, s2), s2) for c in g.ifs]
+                    if any(c is None for c in conds):
+                        ok = False
+                        break
+                    if not all(conds):
+                        continue
+                    kk, vv = self.sym(node.key, s2), self.sym(node.value, s2)
+                    items = [(a, b) for a, b in items if a != kk] + [(kk, vv)]
+                if ok:
+                    return ('dict', tuple(items), ('at', getattr(node, 'lineno', 0), getattr(node, 'col_offset', 0)))
             inner = st.clone()
             names = [n.id for n in ast.walk(g.target) if isinstance(n, ast.Name)]
             for n in names:
@@ -435,6 +481,26 @@ class Walker:
                     self.sym(g.iter, st), tuple(self.sym(c, inner) for c in g.ifs))
         if isinstance(node, (ast.ListComp, ast.GeneratorExp, ast.SetComp)) and len(node.generators) == 1:
             g = node.generators[0]
+            lit = self.sym(g.iter, st)
+            if lit[0] in ('list', 'tuple') and len(lit[1]) <= 32 and not any(e[0] == 'star' for e in lit[1]) and not isinstance(node, ast.SetComp):
+                # a comprehension over a literal sequence is the sequence it spells out (elements in order)
+                elems = []
+                ok = True
+                for e in lit[1]:
+                    s2 = st.clone()
+                    try:
+                        self.assign(g.target, e, s2, node)
+                    except AnalysisError:
+                        ok = False
+                        break
+                    conds = [self.decide(self.sym(c, s2), s2) for c in g.ifs]
+                    if any(c is None for c in conds):
+                        ok = False
+                        break
+                    if all(conds):
+                        elems.append(self.sym(node.elt, s2))
+                if ok:
+                    return ('list', tuple(elems))
             inner = st.clone()
             names = [n.id for n in ast.walk(g.target) if isinstance(n, ast.Name)]
             for n in names:
@@ -722,6 +788,7 @@ class Walker:
             (f['isa'] if pol else f['nota']).add(test[2][1][1])
             return
         if k == 'cmp':
+            st.fact(test)['truthy'] = pol          # the same comparison of the same values decides the same way later on
             op, a, b = test[1], test[2], test[3]
             if is_const(a) and not is_const(b):
                 a, b = b, a
@@ -1342,11 +1409,18 @@ class Walker:
                     s2.env[var] = C(kv)
                     s2.events.append(('matched', C(kv), node))
                 else:
+                    if node.orelse:
+                        # for ... else: X = default   (no rule matched, the loop ran to its end)
+                        s2.env[var] = self.sym(node.orelse[0].value, s2)
                     s2.events.append(('matched', C(None), node))
                 out.append(s2)
             return out
         if it[0] in ('tuple', 'list') and len(it[1]) <= 32 and not any(e[0] == 'star' for e in it[1]) and not node.orelse:
             return self.unrolled_for(node, it, st, done)
+        pl = self.polling_iter(node)
+        if pl is not None:
+            # for x in iter(<callable>, sentinel): body    is    while True: x = <callable>(); if x == sentinel: break; body
+            return self.inner_while(pl, st, done)
         upd = self.dict_update_loop(node)
         if upd is not None:
             # for k, v in D.items(): [if test:] D[k] = f(v)     is     D.update({k: f(v) for k, v in D.items() [if test]})
@@ -1412,6 +1486,35 @@ class Walker:
         out.append(s0)
         return out
 
+    def polling_iter(self, node):
+        """The `while True` loop equivalent to `for x in iter(functools.partial(f, *a), sentinel)` / `iter(lambda: e, sentinel)`."""
+        it = node.iter
+        if not (isinstance(it, ast.Call) and isinstance(it.func, ast.Name) and it.func.id == 'iter' and len(it.args) == 2 and not it.keywords) or node.orelse:
+            return None
+        src, sentinel = it.args
+        call = None
+        if isinstance(src, ast.Call) and dotted(src.func) in ('functools.partial', 'partial') and src.args:
+            call = ast.Call(func=src.args[0], args=list(src.args[1:]), keywords=list(src.keywords))
+        elif isinstance(src, ast.Lambda) and not src.args.args and not src.args.vararg and not src.args.kwarg:
+            call = src.body
+        elif isinstance(src, ast.Name) and src.id in self.facts.funcs:
+            call = ast.Call(func=src, args=[], keywords=[])
+        if call is None:
+            return None
+        body = [ast.Assign(targets=[node.target], value=call, type_comment=None)]
+        if not (isinstance(sentinel, ast.Constant) and sentinel.value is None and isinstance(node.target, (ast.Tuple, ast.List))):
+            tgt_load = copy_ast(node.target)
+            for n in ast.walk(tgt_load):
+                if hasattr(n, 'ctx'):
+                    n.ctx = ast.Load()
+            body.append(ast.If(test=ast.Compare(left=tgt_load, ops=[ast.Eq()], comparators=[sentinel]), body=[ast.Break()], orelse=[]))
+        w = ast.While(test=ast.Constant(value=True), body=body + list(node.body), orelse=[])
+        ast.copy_location(w, node)
+        ast.fix_missing_locations(w)
+        for b in w.body:
+            ast.copy_location(b, node) if not hasattr(b, 'lineno') else None
+        return w
+
     def dict_update_loop(self, node):
         """(dict expression, equivalent DictComp node) for a loop that rewrites the values of the dict it iterates, else None."""
         if node.orelse or not (isinstance(node.target, ast.Tuple) and len(node.target.elts) == 2 and all(isinstance(e, ast.Name) for e in node.target.elts)):
@@ -1472,7 +1575,10 @@ class Walker:
 
     def search_keys(self, node, it, st):
         """`for k, preds in TABLE.items(): if all(pred(args) for pred in preds): X = k; break` -> (X, keys, call shape)."""
-        if not (len(node.body) == 1 and isinstance(node.body[0], ast.If) and not node.orelse and not node.body[0].orelse):
+        if not (len(node.body) == 1 and isinstance(node.body[0], ast.If) and not node.body[0].orelse):
+            return None
+        if node.orelse and not (len(node.orelse) == 1 and isinstance(node.orelse[0], ast.Assign) and len(node.orelse[0].targets) == 1
+                                and isinstance(node.orelse[0].targets[0], ast.Name)):
             return None
         iff = node.body[0]
         if not (isinstance(iff.test, ast.Call) and dotted(iff.test.func) == 'all' and len(iff.body) == 2
@@ -1491,6 +1597,8 @@ class Walker:
         asg = iff.body[0]
         if not (isinstance(asg.targets[0], ast.Name) and isinstance(node.target, ast.Tuple)
                 and isinstance(asg.value, ast.Name) and asg.value.id == node.target.elts[0].id):
+            return None
+        if node.orelse and node.orelse[0].targets[0].id != asg.targets[0].id:
             return None
         return asg.targets[0].id, keys, unparse(iff.test)
 
